@@ -536,6 +536,9 @@ func (x *Exec) execStore(f *Frame, i *ssa.Store) {
 	}
 	t := x.term(f, i.Val)
 	x.store(f, lv, t, i.Pos())
+	if lv.kind == LVLocal && len(lv.path) == 0 && lv.alloc != nil && lv.alloc.Comment != "" && f.top && x.con != nil && len(x.con.GhostUpd) > 0 {
+		x.runGhostUpdates(f, "set:"+lv.alloc.Comment, -1, false)
+	}
 }
 
 var richTable = map[*Frame]map[*ssa.Alloc]Val{}
